@@ -211,6 +211,8 @@ struct Slot {
     /// CPU ticks (utime + stime of all threads) at the last watchdog inspection
     last_cpu: u64,
     idle_inspections: u32,
+    /// CPU ticks when the watchdog first inspected the case in flight (u64::MAX = not yet)
+    watch_cpu_start: u64,
 }
 
 /// (any thread runnable?, total CPU ticks) of a process, from /proc. A blocked (deadlocked)
@@ -239,6 +241,10 @@ fn proc_activity(pid: u32) -> (bool, u64) {
 
 /// wall-clock limit for a case that is still burning CPU (slow, starved by load, or livelocked)
 const BUSY_LIMIT: Duration = Duration::from_secs(120);
+/// CPU-time limit (clock ticks, 100/s) for one case, counted from the moment the watchdog first inspects it
+const BUSY_CPU_TICKS: u64 = 3000;
+/// after this many hangs the remaining cases of a run are not worth 20 s each: the run stops and reports what it has
+const MAX_HANGS: u64 = 48;
 
 fn spawn(cli: &Cli, k: usize, kk: usize, resume: usize, dir: &str) -> Child {
     if let Ok(mut f) = std::fs::OpenOptions::new().create(true).write(true).truncate(false).open(format!("{dir}/progress.{k}")) {
@@ -275,7 +281,7 @@ fn parent_main(cli: &Cli, rep: &Report, check: &'static dyn IsoCheck) {
     std::fs::create_dir_all(&dir).expect("iso dir");
     let n = check.n_cases();
     let mut slots: Vec<Slot> = (0..kk)
-        .map(|k| Slot { k, child: spawn(cli, k, kk, 0, &dir), last_idx: u64::MAX - 1, last_change: Instant::now(), resume: 0, last_cpu: 0, idle_inspections: 0 })
+        .map(|k| Slot { k, child: spawn(cli, k, kk, 0, &dir), last_idx: u64::MAX - 1, last_change: Instant::now(), resume: 0, last_cpu: 0, idle_inspections: 0, watch_cpu_start: u64::MAX })
         .collect();
     let mut deaths = 0u64;
     let mut hangs = 0u64;
@@ -293,6 +299,7 @@ fn parent_main(cli: &Cli, rep: &Report, check: &'static dyn IsoCheck) {
                 s.last_idx = idx;
                 s.last_change = Instant::now();
                 s.idle_inspections = 0;
+                s.watch_cpu_start = u64::MAX;
             }
             let status = s.child.try_wait().expect("try_wait");
             let mut restart_after: Option<(usize, String, String)> = None;
@@ -337,14 +344,19 @@ fn parent_main(cli: &Cli, rep: &Report, check: &'static dyn IsoCheck) {
                         }
                         s.last_cpu = cpu;
                         let blocked = s.idle_inspections >= 40; // 40 polls x 50 ms
-                        let runaway = s.last_change.elapsed() > BUSY_LIMIT;
+                        // CPU time is load independent: a case that has burnt BUSY_CPU_TICKS of CPU since the watchdog
+                        // first looked at it is a livelock / runaway whatever the wall clock says
+                        if s.watch_cpu_start == u64::MAX {
+                            s.watch_cpu_start = cpu;
+                        }
+                        let runaway = s.last_change.elapsed() > BUSY_LIMIT || cpu.saturating_sub(s.watch_cpu_start) > BUSY_CPU_TICKS;
                         if blocked || runaway {
                             let _ = s.child.kill();
                             let _ = s.child.wait();
                             let what = if blocked {
                                 format!("blocked: no progress for {} s, no runnable thread, no CPU used", s.last_change.elapsed().as_secs())
                             } else {
-                                format!("runaway: still computing after {} s in one case", BUSY_LIMIT.as_secs())
+                                format!("runaway: still computing after {} s of CPU time / {} s in one case", BUSY_CPU_TICKS / 100, BUSY_LIMIT.as_secs())
                             };
                             restart_after = Some((idx as usize, "hang".into(), what));
                             hangs += 1;
@@ -372,8 +384,9 @@ fn parent_main(cli: &Cli, rep: &Report, check: &'static dyn IsoCheck) {
                     continue;
                 }
                 let resume = case_idx + 1;
-                if deaths + hangs > 400 {
-                    rep.machinery_error("more than 400 child deaths/hangs: giving up (the cases already recorded are reported)");
+                if deaths + hangs > 400 || hangs > MAX_HANGS {
+                    rep.add("capped_by_deaths_or_hangs", 1);
+                    rep.machinery_error("more than 400 child deaths or 48 hangs: giving up (the cases already recorded are reported)");
                     finished[s.k] = true;
                     continue;
                 }
@@ -383,6 +396,7 @@ fn parent_main(cli: &Cli, rep: &Report, check: &'static dyn IsoCheck) {
                 s.last_change = Instant::now();
                 s.idle_inspections = 0;
                 s.last_cpu = 0;
+                s.watch_cpu_start = u64::MAX;
             }
         }
         if all_done {
